@@ -100,7 +100,7 @@ impl Scenario for Batch {
         let prefill_offsets: Vec<u64> = if r.chance(1, 2) { vec![] } else { (0..r.urange(1, 4)).map(|_| r.below(1000)).collect() };
         let policy = r.below(3) as u8;
         let ncalls = r.urange(1, 40);
-        let ocfg = OpGenCfg { kinds: &kinds, vals: &vals, filters: false, fail_pct };
+        let ocfg = OpGenCfg { kinds: &kinds, vals: &vals, filters: true, fail_pct };
         let mut calls = vec![];
         for _ in 0..ncalls {
             let kind = *r.pick(&kinds);
